@@ -10,6 +10,8 @@
   The theorems are stated over this input so that they compose with the tree-builder theorems (C02).
 -/
 import AHP.Lemmas.DomAppend
+import AHP.Lemmas.FragmentTokens
+import AHP.Props.C02
 namespace AHP.C20
 open AHP AHP.Dom AHP.Dom.Spec
 
@@ -54,7 +56,7 @@ theorem createBlocksFromHTML_multi_detached (doc n : Nat) (tops : List FN) :
     ∀ r ∈ (createBlocksFromHTML doc n (.multi tops)).filter DN.isEl, Detached r := by
   obtain ⟨k, hok, _, _⟩ := build_spec (.multi tops) doc n
   simp only [createBlocksFromHTML, Parsed.build] at hok ⊢
-  simp only [createBlocks, wrapperName, if_true]
+  simp only [createBlocks, Dom.wrapperName, if_true]
   simp only [OK_el] at hok
   exact detachTop_roots _ _ hok.2.2.2.2.2 (fun i hi => hi)
 
@@ -79,7 +81,7 @@ theorem createElementsFromHTML_eq (doc n : Nat) (p : Parsed) (hp : Parsed.plain 
   | multi tops =>
     obtain ⟨k, hok, hids, _⟩ := build_spec (.multi tops) doc n
     have hb := abs_createBlocks (.multi tops) trivial doc n
-    simp only [createElementsFromHTML, Parsed.build, wrapperName, if_true] at hok hids hb ⊢
+    simp only [createElementsFromHTML, Parsed.build, Dom.wrapperName, if_true] at hok hids hb ⊢
     simp only [OK_el] at hok
     have hnd : (elemIds (mkL (some n) (some doc) tops (n + 1)).1).Nodup := by
       have h0 : (elemIds (DN.text [] :: (mkL (some n) (some doc) tops (n + 1)).1)).Nodup := by
@@ -92,7 +94,7 @@ theorem createElementsFromHTML_eq (doc n : Nat) (p : Parsed) (hp : Parsed.plain 
     rw [locRemoveChildren_all (elemIds (mkL (some n) (some doc) tops (n + 1)).1) _
       (DN.text [] :: (mkL (some n) (some doc) tops (n + 1)).1) rfl (by simp) hnd]
     rw [← hb.1]
-    simp only [createBlocks, wrapperName, if_true, List.map_map]
+    simp only [createBlocks, Dom.wrapperName, if_true, List.map_map]
     generalize (DN.text [] :: (mkL (some n) (some doc) tops (n + 1)).1) = l
     generalize elemIds (mkL (some n) (some doc) tops (n + 1)).1 = ch
     induction l with
@@ -136,7 +138,7 @@ theorem createBlocks_ne_nil (p : Parsed) (d n : Nat) : createBlocks (p.build d n
     | text s => simp [Parsed.build, createBlocks]
     | el name attrs sc kids =>
       simp only [Parsed.build]; rw [mk_el]; simp only [createBlocks]; split <;> simp
-  | multi tops => simp [Parsed.build, createBlocks, wrapperName]
+  | multi tops => simp [Parsed.build, createBlocks, Dom.wrapperName]
 
 /-- C20d. After `appendInnerHTML(h)` the target's blocks are the previous blocks followed by the
     top-level nodes of the parse, and its innerHTML is the previous innerHTML followed by the
@@ -168,13 +170,196 @@ theorem appendInnerHTML_innerHTML (w w' : World) (t : Nat) (p : Parsed) (v : Val
   rw [innerL_abs, hb, shtmlL_append]
   simp
 
+
+/-! ## C20 on token lists — which of `single` / `multi` the document parser produces
+
+  Above, the parse of the fragment text is an input `p : Parsed`.  Here it is computed: `parsed toks` is what the
+  MODEL of the document parser (`feedTokens`, AHP/Model/Builder.lean — first pass, wrapper fallback) hands to the
+  fragment constructors for the token list `toks` of the fragment text.  With C02's `feed_eq_spec` it is read off
+  the recursive-descent specification: `topNodes toks` are the top-level nodes of the fragment, a node is
+  *significant* when it is an element or text that is not blank, and the parser produces
+
+    * `single r`            when the only significant top-level node is the element `r`,
+    * `multi (topNodes …)`  when there are two or more significant top-level nodes, or exactly one that is text,
+    * nothing (`root is None`; the fragment APIs then raise `AttributeError` — outside the property's domain)
+      when there is no significant node at all. -/
+
+/-- what the document parser hands to the fragment constructors for the tokens of the fragment text -/
+def parsed (toks : List Token) : Option Parsed := parsedOf (feedTokens toks)
+
+/-- **which of single / multi**, for every token list that does not mention the reserved wrapper name. -/
+theorem parsed_of_tokens (toks : List Token) (hw : C02.NoWrapper toks) :
+    parsed toks =
+      match oneRoot (sigNodes (topNodes toks)) with
+      | some (some r) => some (.single r.toFN)
+      | some none => none
+      | none => some (.multi (toFNL (topNodes toks))) := by
+  unfold parsed
+  rw [C02.feed_eq_spec toks hw]
+  unfold Spec.build
+  rw [single_eq_oneRoot_top]
+  cases h : oneRoot (sigNodes (topNodes toks)) with
+  | none => rfl
+  | some r =>
+    cases r with
+    | none => rfl
+    | some r => rfl
+
+/-- exactly one significant top-level node and it is an element ⇒ `single` with that element -/
+theorem parsed_single (toks : List Token) (hw : C02.NoWrapper toks) (r : Node)
+    (h : sigNodes (topNodes toks) = [r]) (hr : r.isText = false) : parsed toks = some (.single r.toFN) := by
+  rw [parsed_of_tokens toks hw, h]
+  cases r with
+  | text s => simp [Node.isText] at hr
+  | elem n a sc kids => rfl
+
+/-- two or more significant top-level nodes, or a single one that is text ⇒ `multi` with all top-level nodes
+    (blank text between them included) -/
+theorem parsed_multi (toks : List Token) (hw : C02.NoWrapper toks)
+    (h : 2 ≤ (sigNodes (topNodes toks)).length ∨ ∃ s, sigNodes (topNodes toks) = [.text s]) :
+    parsed toks = some (.multi (toFNL (topNodes toks))) := by
+  rw [parsed_of_tokens toks hw, (oneRoot_multi_iff _).mpr h]
+
+/-- no significant top-level node ⇒ nothing is parsed -/
+theorem parsed_none_iff (toks : List Token) (hw : C02.NoWrapper toks) :
+    parsed toks = none ↔ sigNodes (topNodes toks) = [] := by
+  rw [parsed_of_tokens toks hw]
+  constructor
+  · intro h
+    cases ho : oneRoot (sigNodes (topNodes toks)) with
+    | none => rw [ho] at h; cases h
+    | some r =>
+      cases r with
+      | none => exact (oneRoot_none_iff _).mp ho
+      | some r => rw [ho] at h; cases h
+  · intro h; rw [h]; rfl
+
+/-- the single root the parser hands over is not the wrapper (the fragment does not mention its name) -/
+theorem parsed_plain (toks : List Token) (hw : C02.NoWrapper toks) (p : Parsed) (hp : parsed toks = some p) :
+    Parsed.plain p := by
+  rw [parsed_of_tokens toks hw] at hp
+  cases ho : oneRoot (sigNodes (topNodes toks)) with
+  | none => rw [ho] at hp; simp only [Option.some.injEq] at hp; rw [← hp]; trivial
+  | some r =>
+    cases r with
+    | none => rw [ho] at hp; cases hp
+    | some r =>
+      rw [ho] at hp
+      simp only [Option.some.injEq] at hp
+      rw [← hp]
+      -- the root was opened by a start tag of the input
+      have hs : Spec.single (toks.length + 1) toks = some (some r) := by rw [single_eq_oneRoot_top, ho]
+      obtain ⟨n, a', sc, kids, e, a, hm⟩ := single_root_name _ toks r hs
+      subst e
+      simp only [Node.toFN, Parsed.plain]
+      have hne : lower n ≠ AHP.wrapperName := by
+        rcases hm with hm | hm
+        · have := hw _ hm; simpa [Spec.mentionsWrapper] using this
+        · have := hw _ hm; simpa [Spec.mentionsWrapper] using this
+      exact hne
+
+/-- **C20a on token lists.** `createElementFromHTML` raises `MultipleRootNodeException` exactly when the
+    significant top-level nodes (elements and non-blank text) of the fragment are not a single element — i.e.
+    there are two or more of them, or the only one is text; with exactly one element (and any blank text,
+    declarations, stray end tags around it) it never raises and returns that element. -/
+theorem createElement_raises_iff (toks : List Token) (hw : C02.NoWrapper toks) (doc n : Nat) (p : Parsed)
+    (hp : parsed toks = some p) :
+    (createElementFromHTML doc n p = .error "MultipleRootNodeException" ↔
+      (2 ≤ (sigNodes (topNodes toks)).length ∨ ∃ s, sigNodes (topNodes toks) = [.text s])) ∧
+    (∀ r, sigNodes (topNodes toks) = [r] → r.isText = false →
+      createElementFromHTML doc n p = .ok ((Parsed.single r.toFN).build doc n).1) := by
+  constructor
+  · rw [createElementFromHTML_raises_iff, ← oneRoot_multi_iff]
+    rw [parsed_of_tokens toks hw] at hp
+    constructor
+    · rintro ⟨tops, e⟩
+      subst e
+      cases ho : oneRoot (sigNodes (topNodes toks)) with
+      | none => rfl
+      | some r =>
+        rw [ho] at hp
+        cases r with
+        | none => cases hp
+        | some r => simp at hp
+    · intro ho
+      rw [ho] at hp
+      simp only [Option.some.injEq] at hp
+      exact ⟨_, hp.symm⟩
+  · intro r h hr
+    have := parsed_single toks hw r h hr
+    rw [this] at hp
+    simp only [Option.some.injEq] at hp
+    rw [← hp]
+    rfl
+
+/-- **C20c on token lists.** `createBlocksFromHTML` returns exactly the top-level nodes of the parse, in order —
+    and which they are is decided by the tokens: the single root ITSELF when the only significant top-level node is
+    an element, else every top-level node of the fragment (elements, text — blank text included —, references,
+    comments) as the blocks of the wrapper. -/
+theorem createBlocks_of_tokens (toks : List Token) (hw : C02.NoWrapper toks) (doc n : Nat) (p : Parsed)
+    (hp : parsed toks = some p) :
+    absL (createBlocksFromHTML doc n p) = (sfragment n p).1 ∧
+    ((∃ r, sigNodes (topNodes toks) = [r] ∧ r.isText = false ∧ p = .single r.toFN) ∨
+     ((2 ≤ (sigNodes (topNodes toks)).length ∨ ∃ s, sigNodes (topNodes toks) = [.text s]) ∧
+       p = .multi (toFNL (topNodes toks)))) := by
+  refine ⟨createBlocksFromHTML_top_level doc n p (parsed_plain toks hw p hp), ?_⟩
+  have hp' := hp
+  rw [parsed_of_tokens toks hw] at hp'
+  cases ho : oneRoot (sigNodes (topNodes toks)) with
+  | none =>
+    rw [ho] at hp'
+    simp only [Option.some.injEq] at hp'
+    exact Or.inr ⟨(oneRoot_multi_iff _).mp ho, hp'.symm⟩
+  | some r =>
+    cases r with
+    | none => rw [ho] at hp'; cases hp'
+    | some r =>
+      rw [ho] at hp'
+      simp only [Option.some.injEq] at hp'
+      obtain ⟨h1, h2⟩ := oneRoot_some _ r ho
+      exact Or.inl ⟨r, h1, h2, hp'.symm⟩
+
+/-- **C20b on token lists**: the elements `createElementsFromHTML` returns are the element nodes among those -/
+theorem createElements_of_tokens (toks : List Token) (hw : C02.NoWrapper toks) (doc n : Nat) (p : Parsed)
+    (hp : parsed toks = some p) :
+    (createElementsFromHTML doc n p).map (Option.map abs) = ((sfragment n p).1.filter SN.isEl).map some :=
+  createElementsFromHTML_eq doc n p (parsed_plain toks hw p hp)
+
+/-! non-vacuity: the shapes of the property's quantifier text, decided on tokens -/
+def fragOne : List Token :=
+  [.data " \n".toList, .start "div".toList [("id".toList, some "a".toList)], .data "x".toList, .start "br".toList [],
+   .end_ "div".toList, .data "  ".toList]
+def fragTwo : List Token :=
+  [.data "hi ".toList, .start "b".toList [], .data "x".toList, .end_ "b".toList, .data " ".toList, .startend "i".toList []]
+def fragText : List Token := [.data "just text".toList, .entity "amp".toList]
+
+private theorem noWrapper_of_dec (toks : List Token) (h : toks.all (fun t => !Spec.mentionsWrapper t) = true) :
+    C02.NoWrapper toks := by
+  intro t ht
+  have := List.all_eq_true.mp h t ht
+  simpa using this
+
+example : C02.NoWrapper fragOne := noWrapper_of_dec _ (by decide)
+/-- white space around a single element: single, the element itself -/
+example : ∃ r, sigNodes (topNodes fragOne) = [r] ∧ r.isText = false ∧ parsed fragOne = some (.single r.toFN) := by
+  refine ⟨(sigNodes (topNodes fragOne)).head!, by rfl, by decide, ?_⟩
+  exact parsed_single fragOne (noWrapper_of_dec _ (by decide)) _ (by rfl) (by decide)
+/-- text + element + blank text + element: multi, all four top-level nodes -/
+example : (sigNodes (topNodes fragTwo)).length = 3 ∧ (topNodes fragTwo).length = 4 := by decide
+example : parsed fragTwo = some (.multi (toFNL (topNodes fragTwo))) :=
+  parsed_multi fragTwo (noWrapper_of_dec _ (by decide)) (Or.inl (by decide))
+/-- text only: multi (so `createElementFromHTML` raises) -/
+example : (createElementFromHTML 1 5 (.multi (toFNL (topNodes fragText))) = .error "MultipleRootNodeException") := rfl
+example : parsed fragText = some (.multi (toFNL (topNodes fragText))) :=
+  parsed_multi fragText (noWrapper_of_dec _ (by decide)) (Or.inl (by decide))
+
 /-! ## C20e — createElement -/
 
 /-- C20e. `createElement(name)` is detached (no parent, no ownerDocument), lower-cased, without
     attributes, children or text (its only block is the empty indent string); it is self-closing
     exactly for the void tag names. -/
 theorem createElement_fresh (name : Str) (n : Nat) :
-    createElement name n = .el ⟨n, lower name, [], isVoid (lower name), [], [], none, none⟩ [.text []] ∧
+    createElement name n = .el ⟨n, lower name, [], Dom.isVoid (lower name), [], [], none, none⟩ [.text []] ∧
     Detached (createElement name n) := by
   refine ⟨by simp [createElement, mk_el], ?_⟩
   obtain ⟨m, bs, h, _, _⟩ := mk_isEl none none (lower name) [] false [] n
